@@ -294,7 +294,7 @@ impl Sut {
         self.next_ack += 1;
         let cb = self.acks.cb(id);
         self.rl_mut().flush(Some(cb)).map_err(|e| format!("flush: {}", e))?;
-        match self.acks.wait(id, ACK_TIMEOUT) {
+        match self.acks.wait_patiently(id, ACK_TIMEOUT) {
             Some(AckEvent::Sent { ok: true, .. }) => {}
             Some(e) => return Err(format!("flush ack: {:?}", e)),
             None => return Err("flush ack: timeout".to_string()),
